@@ -55,9 +55,13 @@ pub fn exec(rec: &Value, _st: &mut State) -> Value {
             let guess = match gi(rec, "guess") {
                 0 => Iso2::identity(),
                 1 => Iso2::translation(o2.x, o2.y) * Iso2::new(parry2d_f64::na::Vector2::new(0.05, -0.03), 0.02) * Iso2::translation(-o2.x, -o2.y),
+                // a pure rotation about the (possibly far away) origin: zero translation part, non-zero angle. The measured
+                // points are handed over turned back by the same rotation (below), so the start is as close as with guess 0
+                3 => Iso2::rotation(0.3),
                 // a rotated guess about the part itself (rotation 0.05 rad about the offset point)
                 _ => Iso2::translation(o2.x, o2.y) * Iso2::new(parry2d_f64::na::Vector2::new(0.02, 0.04), 0.05) * Iso2::translation(-o2.x, -o2.y),
             };
+            let points: Vec<Point2> = if gi(rec, "guess") == 3 { let inv = guess.inverse(); points.iter().map(|p| inv * p).collect() } else { points };
             let derived = |t: &Iso2| -> Vec<f64> { points.iter().map(|p| { let m = t * p; curve.at_closest_to_point(&m).surface_point().scalar_projection(&m) }).collect() };
             let r0 = derived(&guess);
             let _ = engeom::verif_trace::take();
@@ -103,7 +107,22 @@ pub fn exec(rec: &Value, _st: &mut State) -> Value {
             let samples: Vec<Point3> = gvvi(rec, "samples").iter().map(|p| Point3::new(p[0] as f64 / 2.0, p[1] as f64 / 2.0, p[2] as f64 / 2.0) + o3).collect();
             let points: Vec<Point3> = samples.iter().map(|s| Point3::from(o3) + (d * Point3::from(s.coords - o3)).coords).collect();
             let plane = gs(rec, "mode") == "plane";
-            let guess = Iso3::identity();
+            // optional large pre-rotation S about the part (axis swaps, incl. pitch of -90 / +90 degrees): the measured points
+            // are handed over in a frame turned by S^-1 and S is the starting guess, so the start is as close as without it
+            let swap = {
+                use parry3d_f64::na::{Matrix3, Rotation3, UnitQuaternion, Translation3};
+                let m = match gi_or(rec, "swap", 0) {
+                    1 => Some(Matrix3::new(0.0, 0.0, -1.0, 1.0, 0.0, 0.0, 0.0, -1.0, 0.0)),
+                    2 => Some(Matrix3::new(0.0, 0.0, 1.0, 1.0, 0.0, 0.0, 0.0, 1.0, 0.0)),
+                    3 => Some(Matrix3::new(1.0, 0.0, 0.0, 0.0, -1.0, 0.0, 0.0, 0.0, -1.0)),
+                    4 => Some(Matrix3::new(0.0, -1.0, 0.0, 1.0, 0.0, 0.0, 0.0, 0.0, 1.0)),
+                    _ => None,
+                };
+                m.map(|m| { let r = UnitQuaternion::from_rotation_matrix(&Rotation3::from_matrix_unchecked(m));
+                    Iso3::from_parts(Translation3::from(o3), parry3d_f64::na::UnitQuaternion::identity()) * Iso3::from_parts(Translation3::identity(), r) * Iso3::translation(-o3.x, -o3.y, -o3.z) })
+            };
+            let points: Vec<Point3> = match &swap { None => points, Some(sw) => { let inv = sw.inverse(); points.iter().map(|p| inv * p).collect() } };
+            let guess = swap.unwrap_or(Iso3::identity());
             let derived = |t: &Iso3| -> Vec<f64> { points.iter().map(|p| { let m = t * p; let sp = mesh.surf_closest_to(&m);
                 if plane { sp.scalar_projection(&m).abs() } else { (m - sp.point).norm() } }).collect() };
             let r0 = derived(&guess);
